@@ -71,6 +71,19 @@ pub enum Case {
     Implicit { direct: String, explicit: String },
     /// Several lone-scale conversions as the root expressions of ONE query: each as if it stood alone.
     Several { query: String, expects: Vec<String>, units: Vec<(String, i32)> },
+    /// A product or quotient with a quantity on an offset scale among its operands: the result quantity has the
+    /// scale multiplied with other units (or squared, or inverted), so it is refused or equals — in base SI
+    /// value and dimension — the same expression with every degree read as an interval (`twin`: x °C written
+    /// as x K, x °F as (x * 5 / 9) K).
+    Product {
+        query: String,
+        twin: String,
+        /// the same expression with every lone scale operand read as an absolute temperature (x °C as (x + 273.15) K);
+        /// only when every offset-scale operand stands alone with power one — then a result that carries no offset
+        /// scale may also equal this reading
+        #[serde(default)]
+        absolute: Option<String>,
+    },
     /// Offset scale not alone: result must be an error or exactly the interval value.
     NotAlone { query: String, interval: String, shift_examples: Vec<String> },
 }
@@ -211,6 +224,61 @@ fn not_alone() -> impl Strategy<Value = Case> {
         })
 }
 
+/// Products and quotients of two or three parenthesised quantities, at least one on an offset scale.
+fn product() -> impl Strategy<Value = Case> {
+    let operand = prop_oneof![
+        3 => (gen::small_lit(), scale()).prop_map(|(x, s)| {
+            let twin = format!("({}{} * 1 K)", x.text, degree_factor(s.0, s.2, false));
+            let k = s.0.to_kelvin(&(&x.value * crate::tool::pow10(s.2 as i64)));
+            let abs = format!("(({}) * 1 K)", rat(&k).replace('/', " / "));
+            (format!("({} {})", x.text, s.1), twin, s.0 != Scale::K, Some(abs))
+        }),
+        2 => (gen::small_lit(), other_unit()).prop_map(|(x, w)| {
+            let t = format!("({} {})", x.text, w.text);
+            (t.clone(), t.clone(), false, Some(t))
+        }),
+        1 => (gen::small_lit(), scale(), other_unit(), any::<bool>()).prop_map(|(x, s, w, over)| {
+            let op = if over { "/" } else { "*" };
+            let twin = format!("({}{} * 1 {}{}K)", x.text, degree_factor(s.0, s.2, over), w.text, op);
+            let off = s.0 != Scale::K;
+            let abs = if off { None } else { Some(twin.clone()) };
+            (format!("({} {}{}{})", x.text, w.text, op, s.1), twin, off, abs)
+        }),
+    ];
+    (prop::collection::vec((operand, any::<bool>()), 2..=3), any::<bool>())
+        .prop_filter("an offset scale among the operands", |(v, _)| v.iter().any(|((_, _, off, _), _)| *off))
+        .prop_map(|(v, right_nested)| {
+            let join = |pick: &dyn Fn(&(String, String, bool, Option<String>)) -> String| {
+                let parts: Vec<String> = v.iter().map(|(o, _)| pick(o)).collect();
+                let ops: Vec<&str> = v.iter().skip(1).map(|(_, d)| if *d { "/" } else { "*" }).collect();
+                if parts.len() == 3 && right_nested {
+                    format!("{} {} ({} {} {})", parts[0], ops[0], parts[1], ops[1], parts[2])
+                } else {
+                    let mut q = parts[0].clone();
+                    for (p, o) in parts[1..].iter().zip(ops) {
+                        q.push_str(&format!(" {} {}", o, p));
+                    }
+                    q
+                }
+            };
+            let absolute = if v.iter().all(|(o, _)| o.3.is_some()) { Some(join(&|o| o.3.clone().unwrap())) } else { None };
+            Case::Product { query: join(&|o| o.0.clone()), twin: join(&|o| o.1.clone()), absolute }
+        })
+}
+
+/// The size of one (prefixed) degree in kelvin as a chain of factors behind a literal: ` * 5 / 9 * 1e-3`;
+/// turned over when the degree stands in a denominator.
+fn degree_factor(s: Scale, prefix: i32, inverted: bool) -> String {
+    let mut t = String::new();
+    if s == Scale::F {
+        t.push_str(if inverted { " * 9 / 5" } else { " * 5 / 9" });
+    }
+    if prefix != 0 {
+        t.push_str(&format!(" * 1e{}", if inverted { -prefix } else { prefix }));
+    }
+    t
+}
+
 /// Two to four conversions in one query, mostly between the same two scales with different magnitudes
 /// (what one conversion leaves behind in the query must not colour the next).
 fn several() -> impl Strategy<Value = Case> {
@@ -308,6 +376,41 @@ fn check(c: &Case) -> CaseReport {
                 _ => CaseReport::fail(query, "chain-not-a-value", json!({"query": query, "got": results_json(&rs), "expected": expect})),
             }
         }
+        Case::Product { query, twin, absolute } => {
+            let ev = |q: &str| run(db, q).map_err(|p| format!("panic: {}", p));
+            let (rs, ts) = match (ev(query), ev(twin)) {
+                (Ok(a), Ok(b)) => (a, b),
+                (Err(p), _) | (_, Err(p)) => return CaseReport::fail(query, "panic", json!({"query": query, "twin": twin, "panic": p})),
+            };
+            let table = &observed().table;
+            match (rs.as_slice(), ts.as_slice()) {
+                ([R::Err { .. }], _) => CaseReport::pass(query, true, vec!["product-with-a-scale", "refused"]),
+                ([R::Ok(val)], [R::Ok(tw)]) => match (si_of(val, table), si_of(tw, table)) {
+                    (Some((v, vd)), Some((t, td))) => {
+                        // does the result still carry an offset scale?
+                        let carries_scale = val.unit.keys().any(|k| matches!(k, crate::tool::UKey::Derived(id) if vocab().units.iter().any(|u| u.offset && u.id == Some(*id))));
+                        let abs_ok = || match absolute {
+                            Some(a) if !carries_scale => match ev(a).ok().as_deref() {
+                                Some([R::Ok(av)]) => si_of(av, table).map(|(x, d)| x == v && d == vd).unwrap_or(false),
+                                _ => false,
+                            },
+                            _ => false,
+                        };
+                        if v == t && vd == td {
+                            CaseReport::pass(query, true, vec!["product-with-a-scale", "interval"])
+                        } else if abs_ok() {
+                            CaseReport::pass(query, true, vec!["product-with-a-scale", "absolute-temperatures(result without a scale)"])
+                        } else {
+                            CaseReport::fail(query, "offset-applied-in-a-product", json!({"query": query, "got": rs[0].brief(), "got_si": rat(&v), "twin": twin, "twin_si": rat(&t), "twin_result": ts[0].brief()}))
+                        }
+                    }
+                    _ => CaseReport::fail(query, "unknown-unit", json!({"query": query, "got": rs[0].brief(), "twin": ts[0].brief()})),
+                },
+                // the interval twin has no value (division by zero): the product must not have one either
+                ([R::Ok(_)], [R::Err { .. }]) => CaseReport::fail(query, "value-where-the-interval-reading-has-none", json!({"query": query, "got": rs[0].brief(), "twin": twin, "twin_result": ts[0].brief()})),
+                _ => CaseReport::fail(query, "result-count", json!({"query": query, "got": results_json(&rs), "twin": results_json(&ts)})),
+            }
+        }
         Case::NotAlone { query, interval, .. } => {
             let rs = match run(db, query) {
                 Ok(r) => r,
@@ -329,7 +432,7 @@ fn check(c: &Case) -> CaseReport {
 }
 
 pub fn run_check(ctx: &Ctx) {
-    ctx.set_rule("chains `x S0 to S1 ... to Sn` (n <= 4) over K, °C/celsius, °F/fahrenheit with rational magnitudes (incl. absolute zero, -40, huge and tiny): the result must equal the direct conversion by K = C + 273.15, C = (F - 32)*5/9 exactly and carry the last scale alone; two to four such conversions as the root expressions of one query each give what they give alone; a sum or difference of two lone scales equals the same sum with the right operand converted explicitly; and the not-alone class (scale with power -3..3 other than 1, or multiplied/divided by one or two other units, cast to the same shape over another scale): the result must be an error or exactly the interval conversion; non-trivial = chain of >=2 hops or not-alone; distinct by query text");
+    ctx.set_rule("chains `x S0 to S1 ... to Sn` (n <= 4) over K, °C/celsius, °F/fahrenheit with rational magnitudes (incl. absolute zero, -40, huge and tiny): the result must equal the direct conversion by K = C + 273.15, C = (F - 32)*5/9 exactly and carry the last scale alone; two to four such conversions as the root expressions of one query each give what they give alone; a sum or difference of two lone scales equals the same sum with the right operand converted explicitly; and the not-alone class (scale with power -3..3 other than 1, or multiplied/divided by one or two other units, cast to the same shape over another scale): the result must be an error or exactly the interval conversion; products and quotients of two or three quantities with at least one on an offset scale (alone, or next to another unit): refused, or equal in SI value and dimension to the same expression with every degree read as an interval (x °C as x K, x °F as x*5/9 K); non-trivial = chain of >=2 hops or not-alone; distinct by query text");
     ctx.assume("a prefixed degree (m°C, kK, millicelsius) is exactly its power of ten degrees of that scale (C03's prefix rule)");
     let corpus: Vec<(String, Case)> = load_corpus("C09");
     let cases: Vec<Case> = corpus.into_iter().map(|c| c.1).collect();
@@ -338,6 +441,7 @@ pub fn run_check(ctx: &Ctx) {
     ctx.run_gen("chains", chain, n, check, |c| to_json(c));
     ctx.run_gen("several-in-one-query", several, n / 4, check, |c| to_json(c));
     ctx.run_gen("implicit-conversion", implicit, n / 4, check, |c| to_json(c));
+    ctx.run_gen("products-with-a-scale", product, n / 4, check, |c| to_json(c));
     ctx.run_gen("not-alone", not_alone, n / 2, check, |c| to_json(c));
     ctx.run_gen("not-alone-mixed-shape", mixed_shape, n / 4, check, |c| to_json(c));
     let _ = USpell { factors: vec![], slash: false, star: false, noise: 0, starstar: false };
